@@ -44,6 +44,16 @@ def memcpyM (dst : List Int) (doff : Int) (src : List Int) (soff n : Int) : Opti
     some (dst.take doff.toNat ++ (src.drop soff.toNat).take n.toNat ++ dst.drop (doff.toNat + n.toNat))
   else none
 
+/-- a read of a file-scope constant table of the library (the table itself is tabulated and pinned, Gen/Tables.lean) -/
+def rdT (t : List Nat) (i : Int) : Option Int :=
+  if i < 0 then none else (t[i.toNat]?).map (fun v => (v : Int))
+
+/-- bit operators on non-negative values (the translated functions apply them to unsigned operands only) -/
+def bandI (a b : Int) : Int := ((a.toNat &&& b.toNat : Nat) : Int)
+def borI (a b : Int) : Int := ((a.toNat ||| b.toNat : Nat) : Int)
+def shlI (a k : Int) : Int := ((a.toNat <<< k.toNat : Nat) : Int)
+def shrI (a k : Int) : Int := ((a.toNat >>> k.toNat : Nat) : Int)
+
 /-- the bytes of a buffer as the values a C program reads -/
 def memOf (b : Bytes) : List Int := b.map (fun x => (x.toNat : Int))
 
